@@ -29,7 +29,7 @@ import (
 func init() {
 	core.Register(&core.Property{
 		ID:   "C20",
-		Rule: "exhaustive over the 146 resource types (enumerated from ContainedResource): create by name, TypeOf, contained-resource wrap/unwrap identity, bundle entry wrap/unwrap identity, bundle.Unwrap order; exhaustive over the extension value types (members of Extension.value[x]): build/unwrap identity; seeded random extension lists with repeated URLs x {Upsert, SetByURL, Overwrite, AppendInto, Clear}: only extensions with the affected URL change (list model); generated populated resources x element type in {Reference, Identifier, Coding, Extension, string, dateTime}: ExtractAll/ExtractAllWithPath find every such element exactly once (harness tree walk as reference), every label locates the element in the jsonformat JSON tree and, without choice steps, evaluates to it through FHIRPath. entry / bundle constructors, UnwrapMap, contained-resource accessors, NewType, long lists, contained resources in extraction with element counts, payload-only entries, near-miss extension URLs; distinct_nontrivial = distinct (check kind, type) pairs and distinct (resource type, element type) extractions that found at least one element",
+		Rule: "exhaustive over the 146 resource types (enumerated from ContainedResource): create by name, TypeOf, contained-resource wrap/unwrap identity, bundle entry wrap/unwrap identity, bundle.Unwrap order; exhaustive over the extension value types (members of Extension.value[x]): build/unwrap identity; seeded random extension lists with repeated URLs x {Upsert, SetByURL, Overwrite, AppendInto, Clear}: only extensions with the affected URL change (list model); generated populated resources x element type in {Reference, Identifier, Coding, Extension, string, dateTime}: ExtractAll/ExtractAllWithPath find every such element exactly once (harness tree walk as reference), every label locates the element in the jsonformat JSON tree and, without choice steps, evaluates to it through FHIRPath. entry / bundle constructors, UnwrapMap, contained-resource accessors, NewType, long lists, contained resources in extraction with element counts, payload-only entries, near-miss extension URLs, lists holding an extension without a url element or with a value-less one; distinct_nontrivial = distinct (check kind, type) pairs and distinct (resource type, element type) extractions that found at least one element",
 		Assumptions: []string{"the order of ExtractAllWithPath results is not constrained (compared as sets of (element, label))"},
 		Run:    runC20,
 		Checks: map[string]func(*core.Env, []json.RawMessage){"type": replayC20Type, "ext": replayC20Ext, "mut": replayC20Mut, "extract": replayC20Extract},
@@ -376,6 +376,17 @@ func c20Mut(env *core.Env, seed uint64) {
 	n := rng.Intn(6)
 	for i := 0; i < n; i++ {
 		target.Extension = append(target.Extension, mk(urls[rng.Intn(3)], fmt.Sprint("v", i)))
+	}
+	if seed%3 == 0 {
+		// an extension without a url element and one whose url element holds no value: neither carries the affected URL
+		env.Cover("mutator-url-less-extension")
+		nourl := mk("", "nourl")
+		nourl.Url = nil
+		pos := int(seed/3) % (len(target.Extension) + 1)
+		target.Extension = append(target.Extension[:pos:pos], append([]*dtpb.Extension{nourl}, target.Extension[pos:]...)...)
+		if seed%2 == 0 {
+			target.Extension = append(target.Extension, mk("", "emptyurl"))
+		}
 	}
 	before := append([]*dtpb.Extension{}, target.Extension...)
 	beforeBytes := make([]string, len(before))
